@@ -63,6 +63,13 @@ def run_c07(prop, tier):
     for cut in (1, 3, 5, 9):
         for lat in ([20, 40, 2], [4, 16, 40]):
             recs.append({"sched": {"auth": 0, "ackAt": 1, "infoAt": 1, "lat": lat, "policy": "prompt"}, "seg": {"frame": "Echo", "cut": cut, "pause": 5}})
+    # ... and with a client frame (an ignorable plugin message) that is half received when a Keep Alive falls due: it starts at 13 s or 29 s and is
+    # completed 7 s later, across the deadline -- the Keep Alive goes out on time all the same, the echo is judged as usual
+    for start in (13, 29):
+        for cut in (1, 3, 6):
+            for pol in ("prompt", "never"):
+                recs.append({"sched": {"auth": 0, "ackAt": 1, "infoAt": 1, "lat": [40, 4, 2], "policy": pol, "plugin": {"at": start, "size": 5}},
+                             "seg": {"frame": "Plugin", "cut": cut, "pause": 7}})
     vlib.write_ndjson(inp, recs)
     vlib.run_bin(hx, ["conn-timed", "--in", inp, "--out", outp, "--seed", str(seed), "--threads", "12"], timeout=1800)
     observed = vlib.read_ndjson(outp)
